@@ -13,7 +13,7 @@ REPO = os.path.abspath(os.environ.get("GROG_REPO", "/tmp/wk/walker/repo"))
 VERIF = os.path.dirname(os.path.dirname(os.path.abspath(__file__)))
 MUT = "/tmp/mutdesc"
 OUT = "/tmp/wk/walker/matrix"
-ROUNDS = ["c03a", "c04a", "c05a", "c03b", "c04b", "c05b", "c03c", "c04c", "c05c", "c18a", "c18b"]
+ROUNDS = ["c03a", "c04a", "c05a", "c03b", "c04b", "c05b", "c03c", "c04c", "c05c", "c18a", "c18b", "c18c"]
 
 
 OLD_ROUTINE = """	select {
@@ -153,7 +153,7 @@ def main():
         if "/" in a:
             names.append(a)
         else:
-            names += sorted(os.path.relpath(os.path.dirname(p), MUT) for p in glob.glob(f"{MUT}/{a}/m*/patch.diff"))
+            names += sorted(os.path.relpath(os.path.dirname(p), MUT) for p in glob.glob(f"{MUT}/{a}/*m[0-9]*/patch.diff"))
     os.makedirs(OUT, exist_ok=True)
     with cf.ThreadPoolExecutor(max_workers=jobs) as ex:
         for res in ex.map(lambda n: run_one(n, seed), names):
